@@ -57,6 +57,17 @@ var atoms = []atom{
 	bigAtom(),
 	longLineAtom(),
 	giantAtom(),
+	// a multi-component package (manifest spec.components) rendered as the root package: root
+	// files and folders whose names merely begin with "components" belong to the root, the files
+	// under components/<name>/ do not
+	{"W", map[string]string{
+		"components.yaml":                  pkgw.WidgetYAML("Widget", "w-list-1", "p1", "1", nil) + "---\n" + pkgw.WidgetYAML("Widget", "w-list-2", "p3", "1", nil),
+		"components-rbac/role.yaml":        pkgw.WidgetYAML("Widget", "w-role", "p2", "1", nil),
+		"componentsx.yaml.gotmpl":          pkgw.WidgetYAML("Widget", "w-x-{{.config.x}}", "p2", "1", nil),
+		"components/backend/manifest.yaml": pkgw.Manifest{Name: "backend", Phases: []string{"p1"}}.YAML(),
+		"components/backend/obj.yaml":      pkgw.WidgetYAML("Widget", "backend-obj", "p1", "1", nil),
+	}, []doc{{Path: "components.yaml", Index: 0, Name: "w-list-1", Phase: "p1"}, {Path: "components.yaml", Index: 1, Name: "w-list-2", Phase: "p3"},
+		{Path: "components-rbac/role.yaml", Name: "w-role", Phase: "p2"}, {Path: "componentsx.yaml", Name: "w-x-%x", Phase: "p2"}}},
 	// a helper defined in an ordinary template file (no leading underscore) and used from a file
 	// that sorts before it
 	{"D", map[string]string{
@@ -119,6 +130,7 @@ type Pkg struct {
 func (p Pkg) files() map[string]string {
 	m := pkgw.Manifest{Name: "gen", Phases: p.Phases, ConfigProps: map[string]string{"x": "integer", "enabled": "boolean"},
 		Conditions: map[string]string{"enabled": "config.enabled == true"}, Paths: map[string]string{"cond/**": "cond.enabled"}}
+	m.Components = strings.Contains(p.Atoms, "W")
 	files := map[string]string{"manifest.yaml": m.YAML()}
 	for _, a := range atoms {
 		if strings.Contains(p.Atoms, a.ID) {
@@ -266,7 +278,7 @@ func packages(quick bool) []Pkg {
 		}
 	}
 	rec(0, "")
-	subsets = append(subsets, "B", "BM", "BATX", "D", "DH", "DAM", "DTC", "K", "KA", "G", "GMX")
+	subsets = append(subsets, "B", "BM", "BATX", "D", "DH", "DAM", "DTC", "K", "KA", "G", "GMX", "W", "WAM", "WTN")
 	if !quick {
 		subsets = append(subsets, ids, "AMTHCL", "MNXZCL", "ATHRNXZ", "B"+ids)
 	}
